@@ -603,6 +603,55 @@ func init() {
 		p := scanner.Position{Filename: s[0].(string), Offset: s[1].(int), Line: s[2].(int), Column: s[3].(int)}
 		return p.String()
 	}
+	// ---- strings.Builder (interpreted struct {addr, buf}) ----
+	sbuf := func(a []value) *value { return &(*a[0].(*value)).(structure)[1] }
+	ext["(*strings.Builder).Write"] = func(fr *frame, a []value) value {
+		b := sbuf(a)
+		bs, _ := (*b).([]value)
+		p := a[1].([]value)
+		*b = append(bs, p...)
+		return tuple{len(p), iface{}}
+	}
+	ext["(*strings.Builder).WriteString"] = func(fr *frame, a []value) value {
+		b := sbuf(a)
+		bs, _ := (*b).([]value)
+		switch sv := a[1].(type) {
+		case string:
+			*b = append(bs, strValues(sv)...)
+			return tuple{len(sv), iface{}}
+		case symString:
+			*b = append(bs, sv.b...)
+			return tuple{len(sv.b), iface{}}
+		}
+		panic("WriteString: bad argument")
+	}
+	ext["(*strings.Builder).WriteByte"] = func(fr *frame, a []value) value {
+		b := sbuf(a)
+		bs, _ := (*b).([]value)
+		*b = append(bs, a[1])
+		return iface{}
+	}
+	ext["(*strings.Builder).WriteRune"] = func(fr *frame, a []value) value {
+		b := sbuf(a)
+		bs, _ := (*b).([]value)
+		r := fr.concrete(a[1], "WriteRune").(int32)
+		str := string(r)
+		*b = append(bs, strValues(str)...)
+		return tuple{len(str), iface{}}
+	}
+	ext["(*strings.Builder).String"] = func(fr *frame, a []value) value {
+		bs, _ := (*sbuf(a)).([]value)
+		return symString{append([]value(nil), bs...)}.norm()
+	}
+	ext["(*strings.Builder).Len"] = func(fr *frame, a []value) value {
+		bs, _ := (*sbuf(a)).([]value)
+		return len(bs)
+	}
+	ext["(*strings.Builder).Reset"] = func(fr *frame, a []value) value {
+		*sbuf(a) = []value(nil)
+		return nil
+	}
+	ext["(*strings.Builder).Grow"] = func(fr *frame, a []value) value { return nil }
 	// ---- time ----
 	ext["time.NewTicker"] = func(fr *frame, a []value) value {
 		ch := fr.i.sched.newChan(1, nil)
